@@ -107,14 +107,15 @@ Encodable(form, e) ==
 (* ====================================================================== *)
 (* Reading a header block (what the iteration keeps of it)                *)
 (* ====================================================================== *)
-RECURSIVE SplitLines(_, _)
-SplitLines(s, from) ==
-    LET e == FindFrom(s, CRLF, from)
-    IN  IF e = Len(s) THEN <<Slice(s, from, Len(s))>>
-        ELSE <<Slice(s, from, e)>> \o SplitLines(s, e + 2)
+(* The block is split at every CRLF (occurrences of CRLF cannot overlap); a line is given by its
+   start: 0 or the position after a CRLF; it ends at the next CRLF or at the end of the block.
+   Written without recursion so that TLC can evaluate it on blocks of any length. *)
+LineStarts(s) == {0} \cup {i + 2 : i \in {j \in 0..(Len(s) - 2) : IsAt(s, CRLF, j)}}
+LineAt(s, a)  == Slice(s, a, FindFrom(s, CRLF, a))
 
 Lower(s) == [i \in 1..Len(s) |-> IF s[i] >= 65 /\ s[i] <= 90 THEN s[i] + 32 ELSE s[i]]
 
+(* "name: value" -> lower-cased name and value; a line without ": " is not a field *)
 Field(line) ==
     LET k == FindFrom(line, COLSP, 0)
     IN  IF k = Len(line) THEN [ok |-> FALSE, name |-> <<>>, value |-> <<>>]
@@ -122,13 +123,12 @@ Field(line) ==
 
 (* value of the last field called hname (lower case), NONE if there is none *)
 HeaderVal(block, hname) ==
-    LET ls == SplitLines(block, 0)
-        I  == {i \in 1..Len(ls) : Field(ls[i]).ok /\ Field(ls[i]).name = hname}
-    IN  IF I = {} THEN NONE ELSE Field(ls[CHOOSE i \in I : \A j \in I : j <= i]).value
+    LET I == {a \in LineStarts(block) : Field(LineAt(block, a)).ok /\ Field(LineAt(block, a)).name = hname}
+    IN  IF I = {} THEN NONE ELSE Field(LineAt(block, CHOOSE a \in I : \A c \in I : c <= a)).value
 
 RejectsTransferEncoding(block) ==            \* RFC 7578, 4.7: anything but "binary" is refused
-    LET ls == SplitLines(block, 0)
-    IN  \E i \in 1..Len(ls) : Field(ls[i]).ok /\ Field(ls[i]).name = H_CTE_LC /\ Field(ls[i]).value # V_BINARY
+    \E a \in LineStarts(block) :
+        LET f == Field(LineAt(block, a)) IN f.ok /\ f.name = H_CTE_LC /\ f.value # V_BINARY
 
 (* ====================================================================== *)
 (* One step of the form iteration                                         *)
@@ -182,23 +182,26 @@ FieldsOf(form, hdr) ==
    Text is represented by its UTF-8 encoding, so "decodes to t" reads "is well formed and equals
    Utf8Seq(t)". *)
 Cont(x) == x >= 128 /\ x <= 191
-RECURSIVE Utf8ValidFrom(_, _)
-Utf8ValidFrom(s, i) ==
-    IF i > Len(s) THEN TRUE
-    ELSE LET a == s[i]
-             b == IF i + 1 <= Len(s) THEN s[i + 1] ELSE -1
-             c == IF i + 2 <= Len(s) THEN s[i + 2] ELSE -1
-             d == IF i + 3 <= Len(s) THEN s[i + 3] ELSE -1
-         IN  IF a < 128 THEN Utf8ValidFrom(s, i + 1)
-             ELSE IF a >= 194 /\ a <= 223 THEN Cont(b) /\ Utf8ValidFrom(s, i + 2)
-             ELSE IF a = 224 THEN b >= 160 /\ b <= 191 /\ Cont(c) /\ Utf8ValidFrom(s, i + 3)
-             ELSE IF (a >= 225 /\ a <= 236) \/ a = 238 \/ a = 239 THEN Cont(b) /\ Cont(c) /\ Utf8ValidFrom(s, i + 3)
-             ELSE IF a = 237 THEN b >= 128 /\ b <= 159 /\ Cont(c) /\ Utf8ValidFrom(s, i + 3)
-             ELSE IF a = 240 THEN b >= 144 /\ b <= 191 /\ Cont(c) /\ Cont(d) /\ Utf8ValidFrom(s, i + 4)
-             ELSE IF a >= 241 /\ a <= 243 THEN Cont(b) /\ Cont(c) /\ Cont(d) /\ Utf8ValidFrom(s, i + 4)
-             ELSE IF a = 244 THEN b >= 128 /\ b <= 143 /\ Cont(c) /\ Cont(d) /\ Utf8ValidFrom(s, i + 4)
-             ELSE FALSE
-Utf8Valid(s) == Utf8ValidFrom(s, 1)
+(* length of the sequence a lead byte announces; 0: not a lead byte *)
+SeqLen(a) == IF a < 128 THEN 1 ELSE IF a >= 194 /\ a <= 223 THEN 2 ELSE IF a >= 224 /\ a <= 239 THEN 3
+             ELSE IF a >= 240 /\ a <= 244 THEN 4 ELSE 0
+SecondOk(a, b) == CASE a = 224 -> b >= 160 /\ b <= 191
+                    [] a = 237 -> b >= 128 /\ b <= 159
+                    [] a = 240 -> b >= 144 /\ b <= 191
+                    [] a = 244 -> b >= 128 /\ b <= 143
+                    [] OTHER   -> Cont(b)
+(* continuation bytes are never lead bytes, so the segmentation is unique: every byte that is not a
+   continuation byte must start a complete sequence that is followed by another such byte (or the end),
+   and the first byte must be one.  (No recursion: evaluated on contents of any length.) *)
+Utf8Valid(s) ==
+    /\ (Len(s) > 0 => ~Cont(s[1]))
+    /\ \A i \in 1..Len(s) :
+          Cont(s[i]) \/
+            LET n == SeqLen(s[i])
+            IN  /\ n > 0 /\ i + n - 1 <= Len(s)
+                /\ (n > 1 => SecondOk(s[i], s[i + 1]))
+                /\ \A k \in 2..(n - 1) : Cont(s[i + k])
+                /\ (i + n <= Len(s) => ~Cont(s[i + n]))
 
 (* ====================================================================== *)
 (* State machine                                                           *)
